@@ -23,6 +23,8 @@ class Sched:
         self.hot = []          # counts of line events inside class-level code (first arg `cls`) of thread 0
         self.record_hot = record_hot
         self.failed = None
+        self.seen_lines = set()
+        self.first = []
 
     def start(self, bodies):
         ths = []
@@ -62,8 +64,18 @@ class Sched:
             self.per_thread[me] += 1
             if self.record_hot and me == self.names[0]:
                 vn = frame.f_code.co_varnames
+                owner = ''
                 if vn and vn[0] == 'cls':
                     self.hot.append(self.per_thread[me])
+                    c = frame.f_locals.get('cls')
+                    owner = getattr(c, '__name__', '')
+                elif vn and vn[0] == 'self':
+                    owner = type(frame.f_locals.get('self')).__name__
+                key = (frame.f_code.co_filename, frame.f_lineno, owner)
+                if key not in self.seen_lines:
+                    # first execution of this line for this owner class: where lazily initialised state is filled
+                    self.seen_lines.add(key)
+                    self.first.append(self.per_thread[me])
             nxt = self.decide(self, me, frame)
             if nxt is not None and nxt != me and nxt in self.alive:
                 self.log.append([self.per_thread[me], me, nxt, os.path.basename(frame.f_code.co_filename), frame.f_lineno,
@@ -143,6 +155,7 @@ def run_threads(job, lib):
            'per_thread_lines': sched.per_thread, 'failed': sched.failed}
     if job.get('record_hot'):
         out['hot'] = sched.hot
+        out['first'] = sched.first
     if job.get('canary'):
         wc = World(lib, {'light': True, 'budget': False})
         for op in job['canary']:
